@@ -32,7 +32,7 @@ ASSUMPTIONS = ["faults are content-caused (those the property lists) - no OS-lev
                "'trix' is listed by the library but cannot be written from a plain graph by the installed "
                "rdflib: it is treated as a serialisation fault"]
 
-ROUTES = ["valid", "warnings_only", "type_cleared", "duplicate_ids", "duplicate_names_top",
+ROUTES = ["valid", "warnings_only", "warnings_as_errors", "type_cleared", "duplicate_ids", "duplicate_names_top",
           "duplicate_names_nested", "duplicate_prop_names"]
 FAULTS = ["none", "rdf_format_unknown", "xml_forbidden_value", "xml_forbidden_attr", "xml_forbidden_name",
           "json_unencodable_attr", "lone_surrogate"]
@@ -64,7 +64,7 @@ def make_doc(spec, route, fault):
     sec = odml.Section(name="c07-holder", type="holder-type", parent=doc)
     prop = odml.Property(name="c07-prop", values=["v1", "v2"], parent=sec)
     expect_error = False
-    if route == "warnings_only":
+    if route in ("warnings_only", "warnings_as_errors"):
         odml.Section(name="c07-unspecified", type="n.s.", parent=doc)
         prop.val_cardinality = (5, None)
     elif route == "type_cleared":
@@ -141,6 +141,10 @@ def attempt(cell, maker):
         raised = None
         with warnings.catch_warnings(record=True) as caught:
             warnings.simplefilter("always")
+            if route == "warnings_as_errors":
+                # a caller who turns the "unresolved issues" report into an exception (python -W error):
+                # the save then raises although the document is saveable - and must leave no file either
+                warnings.filterwarnings("error", message=".*unresolved issues.*")
             try:
                 call(doc, backend, sub, entry, fault, path)
             except Exception as exc:
@@ -206,7 +210,7 @@ def _strip_unc(image):
 # ------------------------------------------------------------------------------------
 # validation errors placed anywhere in a generated tree
 
-PLACED = ["type_cleared", "type_empty", "duplicate_ids", "duplicate_section_names", "duplicate_property_names",
+PLACED = ["type_cleared", "type_empty", "duplicate_ids", "duplicate_ids_spelled", "duplicate_section_names", "duplicate_property_names",
           "linked_type_cleared", "merged_type_cleared"]
 
 
@@ -257,6 +261,19 @@ def make_placed(case, notes):
             anc = anc.parent
         notes.append("depth:%d+%d" % (depth(a), depth(b)))
         notes.append("dupids:" + ("ancestor_or_sibling" if related else "across_branches"))
+    elif error == "duplicate_ids_spelled":
+        # the same uuid in another spelling, given at creation, is the same id
+        objs = secs + props
+        a = objs[i % len(objs)]
+        spell = [lambda u: u.upper(), lambda u: "{%s}" % u, lambda u: "urn:uuid:" + u,
+                 lambda u: u.replace("-", "")][j % 4](a.id)
+        cont = secs[j % len(secs)]
+        if (i + j) % 2:
+            new = odml.Section(name="c07-spelled", type="t", oid=spell, parent=cont)
+        else:
+            new = odml.Property(name="c07-spelled", values=[1], oid=spell, parent=cont)
+        notes.append("depth:%d+%d" % (depth(a), depth(new)))
+        notes.append("spelling:%d" % (j % 4))
     elif error == "duplicate_section_names":
         conts = [doc] + secs
         cont = [c for c in conts if len(c.sections)][i % len([c for c in conts if len(c.sections)])]
